@@ -17,9 +17,9 @@ type Case struct {
 	SrcSame bool        `json:"src_same"` // source geographic system on the destination's own datum (else WGS84)
 	// SrcNoDatum: where WGS84 would be the source, use the geographic system on the WGS84 ellipsoid WITHOUT a datum
 	// (+ellps=WGS84 only) - the pairing of a datum-less reference with a 3/7-parameter one
-	SrcNoDatum bool `json:"src_no_datum,omitempty"`
-	Lon     float64     `json:"lon"`      // degrees east of Greenwich
-	Lat     float64     `json:"lat"`
+	SrcNoDatum bool    `json:"src_no_datum,omitempty"`
+	Lon        float64 `json:"lon"` // degrees east of Greenwich
+	Lat        float64 `json:"lat"`
 }
 
 func gen(t *rapid.T) Case {
@@ -28,6 +28,29 @@ func gen(t *rapid.T) Case {
 	c.SrcSame = rapid.Bool().Draw(t, "srcsame")
 	c.SrcNoDatum = rapid.IntRange(0, 2).Draw(t, "srcnodatum") == 1
 	c.Lon, c.Lat = projkit.GenPosition(t, c.Dst)
+	switch c.Dst.Proj {
+	case "lcc", "aea", "eqdc":
+		// "cone-side latitudes": the whole hemisphere of the standard parallels, not only their neighbourhood, and (one
+		// case in eight) the last 0.15 to 0.0002 degrees before the pole, where the iterative inverses converge slowest
+		sign := 1.0
+		if c.Dst.Lat1 < 0 {
+			sign = -1
+		}
+		mode := rapid.IntRange(0, 7).Draw(t, "conelat")
+		if c.Dst.HasShift() {
+			// not through a datum shift (a pair on one and the same 7-parameter datum takes the detour through WGS84 as
+			// well): the height gained in the shift is dropped between the two legs (a 2-D API) and the inverse rotation is
+			// linearised, and a millimetre of that is more than 1e-6 degrees of longitude this close to the pole
+			mode = 7
+		}
+		switch mode {
+		case 0, 1:
+			c.Lat = sign * rapid.Float64Range(1, 89.9).Draw(t, "widelat")
+		case 2:
+			d := rapid.SampledFrom([]float64{0.1, 0.01, 0.001, 0.0005, 0.0003, 0.0002}).Draw(t, "poledist") * rapid.Float64Range(1, 1.5).Draw(t, "polef")
+			c.Lat = sign * (90 - d)
+		}
+	}
 	return c
 }
 
